@@ -66,7 +66,7 @@ async fn wait_indexes(dir: &Path, ids: &[usize]) {
 
 macro_rules! with_storage {
     ($keylen:expr, $body:ident, $($arg:expr),*) => {
-        match $keylen { 4 => $body::<4>($($arg),*).await, 8 => $body::<8>($($arg),*).await, 33 => $body::<33>($($arg),*).await, 400 => $body::<400>($($arg),*).await, 32 => $body::<32>($($arg),*).await, 128 => $body::<128>($($arg),*).await, _ => panic!("keylen") }
+        match $keylen { 4 => $body::<4>($($arg),*).await, 8 => $body::<8>($($arg),*).await, 33 => $body::<33>($($arg),*).await, 400 => $body::<400>($($arg),*).await, 32 => $body::<32>($($arg),*).await, 128 => $body::<128>($($arg),*).await, 1 => $body::<1>($($arg),*).await, 2 => $body::<2>($($arg),*).await, 3 => $body::<3>($($arg),*).await, 12 => $body::<12>($($arg),*).await, 16 => $body::<16>($($arg),*).await, _ => panic!("keylen") }
     };
 }
 
@@ -184,6 +184,21 @@ async fn record<const N: usize>(dir: &Path, bloom_name: &str, group: usize, wide
 #[tokio::main(flavor = "multi_thread", worker_threads = 2)]
 async fn main() -> anyhow::Result<()> {
     let out = PathBuf::from(std::env::args().nth(1).expect("output dir"));
+    if std::env::args().nth(2).as_deref() == Some("batch4") {
+        // fourth batch (same pinned tree): the short key sizes 1, 2, 3 and the 9..16 byte class (12, 16) of the bloom hash,
+        // each with a bloom filter configured
+        let specs: Vec<(usize, &str, usize, u64, usize, bool)> = vec![(1, "tiny", 3, 61, 3, false), (2, "odd", 2, 62, 3, false), (3, "default80k", 3, 63, 3, true), (12, "tiny", 4, 64, 3, false), (16, "odd", 2, 65, 3, true)];
+        for (keylen, bloom_name, group, seed, nblobs, wide_ts) in specs {
+            let name = format!("k{}-{}-g{}-b{}-short", keylen, bloom_name, group, nblobs);
+            let dir = out.join(&name);
+            with_storage!(keylen, generate, &dir, bloom_name, group, seed, nblobs, false, wide_ts)?;
+            let exp = with_storage!(keylen, record, &dir, bloom_name, group, 0)?;
+            std::fs::write(dir.join("expected.json"), serde_json::to_vec_pretty(&exp)?)?;
+            let _ = std::fs::remove_file(dir.join("pearl.lock"));
+            println!("{}: {} files", name, std::fs::read_dir(&dir)?.count());
+        }
+        return Ok(());
+    }
     if std::env::args().nth(2).as_deref() == Some("batch3") {
         // third batch (same pinned tree): key sizes that are multiples of the hash function's block sizes (32, 128),
         // timestamps above 2^32 and at u64::MAX
